@@ -1,16 +1,22 @@
 #!/bin/bash
-# regress_seeded.sh: runs every seeded change against its property's quick check in a scratch
-# worktree of /repo (never in /repo itself), prints one line per seeded change.
+# regress_seeded.sh [id-regexp]: runs every seeded change against its property's quick check in a
+# scratch worktree of /repo (never in /repo itself) using a frozen snapshot of /verif (so that work
+# going on in /verif does not disturb it); prints one line per seeded change.
 set -u
-W=/tmp/repo_regress
-cd /repo && git worktree remove --force $W 2>/dev/null; git worktree prune; git worktree add -q --detach $W HEAD || exit 9
-export VERIF_REPO=$W VERIF_EVIDENCE_DIR=/tmp/regress_evidence VERIF_REPLAY_DIR=/tmp/regress_replays VERIF_JOBS=${VERIF_JOBS:-6}
-for d in /verif/seeded/*/; do
+W=/tmp/repo_regress_$$
+S=/tmp/verif_snapshot_$$
+sel=${1:-.}
+rsync -a --exclude .git --exclude replays --exclude evidence /verif/ $S/
+cd /repo && git worktree add -q --detach $W HEAD || exit 9
+export VERIF_REPO=$W VERIF_EVIDENCE_DIR=$S/evidence VERIF_REPLAY_DIR=$S/replays VERIF_JOBS=${VERIF_JOBS:-6}
+mkdir -p $S/evidence $S/replays
+for d in $S/seeded/*/; do
   id=$(basename $d); pid=${id%%_*}
-  cd $W && git checkout -q -- . 
+  echo "$id" | grep -Eq "$sel" || continue
+  cd $W && git checkout -q -- . && git clean -fdq
   if ! git apply --check $d/patch.diff 2>/dev/null; then echo "$id: PATCH-DOES-NOT-APPLY (tree has moved on)"; continue; fi
   git apply $d/patch.diff
-  cd /verif && ./check $pid --tier quick > /tmp/regress_$id.log 2>&1; rc=$?
-  echo "$id: rc=$rc $(grep -c VIOLATION /tmp/regress_$id.log) violation line(s) $(grep -m1 -o "harness=[A-Za-z0-9_]*" /tmp/regress_$id.log)"
+  cd $S && ./check $pid --tier quick > /tmp/regress_$id.log 2>&1; rc=$?
+  echo "$id: rc=$rc $(grep -c VIOLATION /tmp/regress_$id.log) violation line(s) $(grep -m1 -o "harness=[A-Za-z0-9_]*" /tmp/regress_$id.log) $(grep -m1 CHECK-ERROR /tmp/regress_$id.log | cut -c1-150)"
 done
-cd /repo && git worktree remove --force $W; rm -rf /tmp/regress_evidence /tmp/regress_replays
+cd /repo && git worktree remove --force $W; rm -rf $S
